@@ -179,7 +179,7 @@ def run_grouped(tape, res, World, write_mod, latex_mod, png_mod):
             k = plan[n] if n < len(plan) else None
             res.fault("converter-finishes-at-communicate" if k is None else "converter-finishes-after-k-polls")
             return k
-        sub = SimSubprocess(fs, log=log, plan=planner)
+        sub = SimSubprocess(fs, log=log, plan=planner, stamp=True)
         latex_mod.subprocess = sub
         png_mod.subprocess = sub
         rec = {}
@@ -341,7 +341,7 @@ def run_grouped(tape, res, World, write_mod, latex_mod, png_mod):
                 elif kind == "pdf":
                     tex = now[P["tex"]].decode()
                     datas = [now.get(fs.norm(nm.strip()), b"<missing>") for nm in INPUT_RE.findall(tex)]
-                    fresh = content == pdf_of(tex, datas)
+                    fresh = content.startswith(pdf_of(tex, datas) + "@")
                 else:
                     fresh = content == png_of(now[P["pdf"]])
                 if not fresh:
